@@ -21,6 +21,7 @@ import GomlVerif.Driver.Dce
 import GomlVerif.Driver.C09
 import GomlVerif.Driver.GoComp
 import GomlVerif.Driver.C01pipe
+import GomlVerif.Driver.GoPP
 
 def main (args : List String) : IO UInt32 := do
   match args with
@@ -49,4 +50,5 @@ def main (args : List String) : IO UInt32 := do
   | ["c09"] => Goml.Driver.C09.main; return 0
   | ["gocomp"] => Goml.Driver.GoComp.main; return 0
   | ["c01pipe"] => Goml.Driver.C01pipe.main; return 0
+  | ["gopp"] => Goml.Driver.GoPP.main; return 0
   | _ => IO.eprintln "usage: gomlmodel <c05|…> < lines"; return 2
